@@ -87,6 +87,19 @@ def F_full_outer(a, inner):
     return [J("first", Tab(a.t(), alias=a.a())), J("FULL OUTER JOIN", Tab(a.t(), alias=a.a()), "on")], [Item(Col(0, "ca")), Item(Col(1, "cb"))]
 
 
+def F_natural(a, inner):
+    return [J("first", Tab(a.t(), alias=a.a())), J("NATURAL JOIN", Tab(a.t(), alias=a.a()))], [Item(Col(0, "ca")), Item(Col(1, "cb"))]
+
+
+def F_right_outer(a, inner):
+    return [J("first", Tab(a.t(), alias=a.a())), J("RIGHT OUTER JOIN", Tab(a.t(), alias=a.a()), "on")], [Item(Col(0, "ca")), Item(Col(1, "cb"))]
+
+
+def F_left_outer_inner(a, inner):
+    return ([J("first", Tab(a.t(), alias=a.a())), J("LEFT OUTER JOIN", Tab(a.t(), alias=a.a()), "on"), J("INNER JOIN", Tab(a.t(), alias=a.a()), "using")],
+            [Item(Col(0, "ca")), Item(Col(1, "cb")), Item(Col(2, "cc"))])
+
+
 def F_three_join(a, inner):
     return ([J("first", Tab(a.t(), alias=a.a())), J("JOIN", Tab(a.t(), alias=a.a()), "on"), J("LEFT JOIN", Tab(a.t(), alias=a.a()), "on")],
             [Item(Col(0, "ca")), Item(Col(1, "cb")), Item(Col(2, "cc"))])
@@ -155,6 +168,7 @@ FROM_SHAPES = {
     "single": F_single, "alias_as": F_alias_as, "alias_noas": F_alias_noas, "schema": F_schema, "schema_alias": F_schema_alias,
     "comma": F_comma, "comma_alias": F_comma_alias, "join_on": F_join_on, "join_noalias": F_join_noalias, "join_using": F_join_using,
     "left_schema": F_left_schema, "cross": F_cross, "full_outer": F_full_outer, "three_join": F_three_join,
+    "natural": F_natural, "right_outer": F_right_outer, "left_outer_inner": F_left_outer_inner,
     "mixed_comma": F_mixed_comma, "self_join": F_self_join, "derived": F_derived, "derived_noas": F_derived_noas,
     "join_derived": F_join_derived, "derived_join_table": F_derived_join_table, "unqualified_join": F_unqualified_join,
 }
